@@ -167,6 +167,66 @@ def c_sjoin(rng):
 c_sjoin.n = {'quick': 80, 'thorough': 500}
 
 
+@check(('C05', 'C06', 'C17'), 'sjoin.dask-left-frame')
+def c_sjoin_dask(rng):
+    """sjoin with a Dask left frame: same pairs as the oracle for how in {inner, left}, however the left rows are
+    partitioned - including partitions far away from every right shape and partitions of missing points"""
+    import dask
+    import spatialpandas as sp
+    from spatialpandas import sjoin
+    rkind = rng.choice(['polygon', 'multipolygon', 'line', 'point', 'multipoint'])
+    rs = gen.case(rkind, rng, derive=False, n=rng.choice([1, 2, 3]), p_missing=0.1, p_empty=0.0)
+    fc = [c for el in rs.view if el is not None for c in oracle.flat_coords(rkind, el)]
+    nl = rng.choice([4, 6, 9])
+    els = []
+    for i in range(nl):
+        r = rng.random()
+        if r < 0.15:
+            els.append(None)
+        elif r < 0.55 and len(fc) >= 2:
+            k = rng.randrange(len(fc) // 2)
+            dx, dy = rng.choice([(0.0, 0.0), (0.5, 0.5), (1.0, 1.0), (-0.5, 0.5)])
+            els.append([fc[2 * k] + dx, fc[2 * k + 1] + dy])
+        else:
+            els.append([200.0 + i, 300.0 + i])       # far away from every right shape
+    if rng.random() < 0.5:
+        els.sort(key=lambda e: (e is None, e[0] if e else 0))    # far rows end up together in the last partition(s)
+    pts = gen.Case('point', els, [])
+    pairs = []
+    for li, p in enumerate(pts.view):
+        for ri, sh in enumerate(rs.view):
+            e = oracle.point_intersects(p, rkind, sh)
+            if e is None:
+                return []
+            if e:
+                pairs.append((li, ri))
+    left = sp.GeoDataFrame({'geometry': pts.arr, 'a': list(range(nl))})
+    right = sp.GeoDataFrame({'geometry': rs.arr, 'b': list(range(len(rs.view)))})
+    how = rng.choice(['inner', 'left'])
+    npart = rng.choice([1, 2, 3])
+    recipe = {'left': pts.recipe, 'right': rs.recipe, 'how': how, 'npartitions': npart}
+    tag = f'{how}/{rkind}/{region_of(pts.view)}'
+    try:
+        with dask.config.set(scheduler='synchronous'), warnings.catch_warnings():
+            warnings.simplefilter('ignore')
+            j = sjoin(_ddf(left, npart), right, how=how).compute()
+    except Exception as e:
+        return [V(f'sjoin.dask/raises-{type(e).__name__}/{tag}', f'{e}', recipe)]
+    got = sorted(((int(a), (None if pd.isna(b) else int(b))) for a, b in zip(j['a'], j['b'])),
+                 key=lambda t: (t[0], -1 if t[1] is None else t[1]))
+    exp = list(pairs)
+    if how == 'left':
+        matched = {l for l, _ in pairs}
+        exp += [(l, None) for l in range(nl) if l not in matched]
+    exp = sorted(exp, key=lambda t: (t[0], -1 if t[1] is None else t[1]))
+    if got != exp:
+        return [V(f'sjoin.dask.pairs/{tag}', f'got {got} expected {exp}', recipe)]
+    return []
+
+
+c_sjoin_dask.n = {'quick': 40, 'thorough': 300}
+
+
 # ------------------------------------------------------------------ C20 active geometry (pandas)
 
 @check(('C20',), 'geodataframe.active-geometry')
@@ -343,6 +403,42 @@ def c_dask_active(rng):
 c_dask_active.n = {'quick': 30, 'thorough': 200}
 
 
+@check(('C20',), 'dask.derived-frame-leaves-source')
+def c_dask_source_untouched(rng):
+    """deriving a frame with another active geometry (set_geometry) and computing it must not change the frame it
+    was derived from - observable when the source's partitions are shared objects (persisted frames)"""
+    import dask
+    import spatialpandas as sp
+    kind = rng.choice([k for k in gen.KINDS if k != 'point'])
+    n = rng.choice([4, 6])
+    cs = gen.case(kind, rng, derive=False, n=n, p_missing=0.0, p_empty=0.0)
+    pts = [[float(i), float(i % 3)] for i in range(n)]
+    df = sp.GeoDataFrame({'p0': gen.build('point', pts), 'v': list(range(n)), 'shape': cs.arr})
+    npart = rng.choice([1, 2, 3])
+    recipe = {'shape': cs.recipe, 'npartitions': npart}
+    out = []
+    with dask.config.set(scheduler='synchronous'):
+        try:
+            src = _ddf(df, npart).persist()
+            other = src.set_geometry('shape')
+            other.compute()
+            if other.geometry.name != 'shape' or other.compute().geometry.name != 'shape':
+                out.append(V('dask.set_geometry/derived-frame', '', recipe))
+            names = [src.partitions[k].compute().geometry.name for k in range(src.npartitions)]
+            if any(nm != 'p0' for nm in names) or src.geometry.name != 'p0' or src.compute().geometry.name != 'p0':
+                out.append(V('dask.set_geometry/source-changed', f'{names}', recipe))
+            got = sorted(int(v) for v in src.cx[0.5:2.5, -0.5:2.5].compute()['v'])
+            exp = [i for i in range(n) if 0.5 <= pts[i][0] <= 2.5]
+            if got != exp:
+                out.append(V('dask.set_geometry/source-cx', f'got {got} expected {exp}', recipe))
+        except Exception as e:
+            out.append(V(f'dask.set_geometry/raises-{type(e).__name__}', f'{e}', recipe))
+    return out
+
+
+c_dask_source_untouched.n = {'quick': 12, 'thorough': 80}
+
+
 @check(('C09', 'C17', 'C20'), 'dask.pack_partitions')
 def c_pack(rng):
     import dask
@@ -393,7 +489,7 @@ def c_pack(rng):
 c_pack.n = {'quick': 25, 'thorough': 150}
 
 
-@check(('C12', 'C20', 'C06'), 'dask.parquet-bounds-and-geometry')
+@check(('C12', 'C20', 'C06', 'C13'), 'dask.parquet-bounds-and-geometry')
 def c_parquet(rng):
     import shutil
     import tempfile
